@@ -124,7 +124,7 @@ AVG_REASM = Ob("C17-D1", "R-DISC", "chunk results queued and drained FIFO, each 
 VALUES_OVER_BED = Ob("C17-F1", "R-FLOW", "bigwigvaluesoverbed: per region end-start slots, slot i-start <- value covering base i", CL.ob_values_over_bed)
 FV_SEEK = Ob("C18-B1", "R-BOUND", "FileView::seek: every arm positions the file within [start,end] (exhaustive over order types) with identical epilogues", SL.ob_fileview_seek, floor=4)
 FV_READ = Ob("C18-B4", "R-BOUND", "FileView::read truncates to end-current and advances by the bytes read; new() clamps end and positions at start", SL.ob_fileview_read, floor=2)
-BISECTION = Ob("C18-B1", "R-CASES", "index_chroms::do_index: every probe outcome records the probed line and recurses on both sides, or narrows the interval to (prev, mid]; arithmetic checked over all small (prev, upper)", SL.ob_bisection)
+BISECTION = Ob("C18-I1", "R-CASES", "index_chroms::do_index: every probe outcome records the probed line and recurses on both sides, or narrows the interval to (prev, mid]; arithmetic checked over all small (prev, upper)", SL.ob_bisection)
 CHUNKER = Ob("C18-F1", "R-FLOW", "split_file_into_chunks_by_size: chunks start at 0, end after a full line, are contiguous, cover the file", SL.ob_chunker)
 VIEWS = Ob("C18-F2", "R-FLOW", "parallel source: each chromosome reads FileView[index[i].offset, index[i+1].offset | EOF)", SL.ob_views)
 GROUPING = Ob("C18-G1", "R-FLOW", "index_chroms: adjacent duplicates collapsed; ungrouped file detected by sorting a copy BY NAME and comparing lengths", SL.ob_index_grouping)
